@@ -56,7 +56,9 @@ HARNESS_RULES = {"HarnessBadEvent", "HarnessNestedCall", "HarnessFdNotLowestFree
                  "HarnessPacketNotCellAligned"}
 TYPES = ["u8", "u16", "i8", "i16", "f32", "u10", "u12", "u14"]
 BPP = tiffread.BPP
-METAS = ['{"k":1}', '{"hello":"world","n":[1,2,3]}', '{"a":{"b":"c d"},"e":1.5}', '{}', '{"list":[{"x":1},{"x":2}],"s":"\\u00e9"}']
+METAS = ['{"k":1}', '{"hello":"world","n":[1,2,3]}', '{"a":{"b":"c d"},"e":1.5}', '{}', '{"list":[{"x":1},{"x":2}],"s":"\\u00e9"}',
+         # characters that are special to printf-style formatting, JSON escaping and C strings
+         '{"laser_power":"50% of max","zoom":"150%"}', '{"fmt":"%s %d %n %%","q":"a\\"b","bs":"c\\\\d"}', '{"pct":"100%","t":"\\t"}']
 SCALES = [(1, 1), (0.5, 0.25), (2, 3), (0, 0), (1.5, 0.001), (6.5, 6.5)]
 TLC_WORKERS = max(2, min(8, NCPU // 2))
 
@@ -589,7 +591,8 @@ def rnd_case(rng, cid, kinds, unit, ndev_max=2, scripts=True, maxz=99):
             c["paths"][npath] = "x%d_p%d%s" % (cid, npath, ext_of(c["devs"][d]))
             sx, sy = rng.choice(SCALES)
             # (tiff-json refuses a configuration without metadata, so it mostly gets one)
-            mids = [None, 1, 2, 3, 4, 5, 1, 2, 3, 4, 5, 3] if c["devs"][d] == "tiff-json" else [None, None, 1, 2, 3, 4, 5]
+            allm = list(range(1, len(METAS) + 1))
+            mids = ([None] + allm + allm) if c["devs"][d] == "tiff-json" else ([None, None] + allm)
             p.append(dict(op="set", d=d, pid=npath, form=rng.choice(["plain", "file"]), mid=rng.choice(mids), sx=sx, sy=sy))
             if rng.random() < 0.08:
                 continue                       # configured, never started
